@@ -152,7 +152,7 @@ func (p *ProdGen) Replacement(cls string) sdk.Msg {
 		newBody = newBody[:e.M.MaxBody]
 	}
 	switch cls {
-	case "own-message", "others-message", "unattested", "rotated-set", "user-132-as-deposit", "new-caller-shapes":
+	case "own-message", "others-message", "unattested", "rotated-set", "user-132-as-deposit", "new-caller-shapes", "own-message-unchanged":
 		em := p.emitted(false)
 		if em == nil {
 			return nil
@@ -197,11 +197,15 @@ func (p *ProdGen) Replacement(cls string) sdk.Msg {
 				}
 			}
 			return &ct.MsgReplaceDepositForBurn{From: from, OriginalMessage: orig, OriginalAttestation: att, NewDestinationCaller: newCaller, NewMintRecipient: Structured32(9)}
+		case "own-message-unchanged":
+			if len(orig) >= 116 {
+				newBody, newCaller = append([]byte(nil), orig[116:]...), append([]byte(nil), orig[84:116]...)
+			}
 		case "new-caller-shapes":
 			newCaller = [][]byte{nil, Structured32(1)[:31], append(Structured32(1), 0)}[r.Intn(3)]
 		}
 		return &ct.MsgReplaceMessage{From: from, OriginalMessage: orig, OriginalAttestation: att, NewMessageBody: newBody, NewDestinationCaller: newCaller}
-	case "own-deposit", "others-deposit", "deposit-via-replace-message", "deposit-unattested", "new-recipient-shapes":
+	case "own-deposit", "others-deposit", "deposit-via-replace-message", "deposit-unattested", "new-recipient-shapes", "own-deposit-same-recipient", "own-deposit-unchanged":
 		em := p.emitted(true)
 		if em == nil || em.Depositor == "" {
 			return nil
@@ -223,6 +227,14 @@ func (p *ProdGen) Replacement(cls string) sdk.Msg {
 			return &ct.MsgReplaceMessage{From: from, OriginalMessage: orig, OriginalAttestation: att, NewMessageBody: newBody, NewDestinationCaller: newCaller}
 		case "deposit-unattested":
 			att = MutateAttestation(r, orig, att, e.EnabledPoolKeys(), int(e.M.Threshold))
+		case "own-deposit-same-recipient", "own-deposit-unchanged":
+			// a replacement that keeps the mint recipient of the message it replaces (only the caller changes, or nothing at all)
+			if len(orig) == 248 {
+				mr = append([]byte(nil), orig[116+36:116+68]...)
+				if cls == "own-deposit-unchanged" {
+					newCaller = append([]byte(nil), orig[84:116]...)
+				}
+			}
 		case "new-recipient-shapes":
 			mr = [][]byte{nil, make([]byte, 32), Structured32(1)[:31], append(Structured32(1), 0), append(Structured32(1), Structured32(2)...), append(append(Structured32(1), Structured32(2)...), Structured32(3)...)}[r.Intn(6)]
 		}
@@ -258,7 +270,8 @@ func (p *ProdGen) Replacement(cls string) sdk.Msg {
 }
 
 var ReplacementClasses = []string{"attested-unissued-nonce", "own-message", "others-message", "unattested", "rotated-set", "user-132-as-deposit", "new-caller-shapes",
-	"own-deposit", "others-deposit", "deposit-via-replace-message", "deposit-unattested", "new-recipient-shapes", "foreign-domain", "forged-module-message"}
+	"own-deposit", "others-deposit", "deposit-via-replace-message", "deposit-unattested", "new-recipient-shapes", "foreign-domain", "forged-module-message",
+	"own-deposit-same-recipient", "own-deposit-unchanged", "own-message-unchanged"}
 
 // FailingProducer returns a producer message that must fail for the named reason.
 func (p *ProdGen) FailingProducer(kind string) []sdk.Msg {
@@ -269,6 +282,9 @@ func (p *ProdGen) FailingProducer(kind string) []sdk.Msg {
 	case "oversize-body":
 		n := 8001
 		if p.E.M.HasMaxBody {
+			if p.E.M.MaxBody > 70000 {
+				return nil
+			}
 			n = int(p.E.M.MaxBody) + 1
 		}
 		if n > 70000 {
@@ -277,6 +293,12 @@ func (p *ProdGen) FailingProducer(kind string) []sdk.Msg {
 		return msgs1(&ct.MsgSendMessageWithCaller{From: Acct(r.Intn(NAccounts)), DestinationDomain: 0, Recipient: Structured32(2), MessageBody: make([]byte, n), DestinationCaller: Structured32(3)})
 	case "bad-caller-length":
 		return msgs1(&ct.MsgSendMessageWithCaller{From: Acct(r.Intn(NAccounts)), DestinationDomain: 0, Recipient: Structured32(2), MessageBody: []byte("x"), DestinationCaller: Structured32(3)[:31]})
+	case "deposit-bad-caller-length":
+		// a non-empty destination caller that is not 32 bytes long: refused only by the inner send, after the burn
+		d := p.ValidDeposit(true, r.Intn(4)).(*ct.MsgDepositForBurnWithCaller)
+		zeroHead := append(make([]byte, 32), 0xde, 0xad, 0xbe, 0xef)
+		d.DestinationCaller = [][]byte{{7}, Structured32(3)[:20], Structured32(3)[:31], append(Structured32(3), 9), zeroHead, append(Structured32(3), Structured32(4)...), make([]byte, 20), make([]byte, 33)}[r.Intn(8)]
+		return msgs1(d)
 	case "deposit-zero-amount":
 		d := p.ValidDeposit(false, 0).(*ct.MsgDepositForBurn)
 		d.Amount = mkInt(big.NewInt(0))
@@ -306,7 +328,7 @@ func (p *ProdGen) FailingProducer(kind string) []sdk.Msg {
 	return nil
 }
 
-var FailingProducerKinds = []string{"zero-recipient", "oversize-body", "bad-caller-length", "deposit-zero-amount", "deposit-over-balance", "deposit-no-messenger", "later-message-fails", "deposit-then-failing-message"}
+var FailingProducerKinds = []string{"zero-recipient", "oversize-body", "bad-caller-length", "deposit-bad-caller-length", "deposit-zero-amount", "deposit-over-balance", "deposit-no-messenger", "later-message-fails", "deposit-then-failing-message"}
 
 // Run drives n steps.
 func (p *ProdGen) Run(n int, adminEvery int) {
@@ -385,7 +407,19 @@ func (p *ProdGen) Run(n int, adminEvery int) {
 					break
 				}
 			case 5:
-				e.Restart()
+				if r.Intn(2) == 0 {
+					e.Restart()
+				} else {
+					// a message from the local domain carrying a nonce at/above the outbound counter is received, then the
+					// state goes through an export and an import: outbound numbering must continue where it was
+					in := &InMsg{Version: 0, Src: 4, Dst: 4, Nonce: e.M.NextNonce + uint64(r.Intn(4)), Sender: Structured32(0x51), Recipient: Structured32(0x52), Caller: make([]byte, 32), Body: []byte("loop-back")}
+					raw := in.Bytes()
+					e.Exec(Tx{Msgs: msgs1(&ct.MsgReceiveMessage{From: Acct(UserIx), Message: raw, Attestation: e.Attest(raw, 0)}), Note: "local-domain message received"})
+					if _, _, _, err := e.ExportImport(); err != nil {
+						rc.Cov.Inconclusive("export/import: " + err.Error())
+					}
+					e.Exec(Tx{Msgs: msgs1(p.ValidSend(false)), Note: "send after export/import"})
+				}
 			}
 			if r.Intn(3) == 0 { // rotate a destination's token messenger (remove, register another address)
 				d := p.dstWithMessenger()
